@@ -72,7 +72,7 @@ def _run_once(case, fault):
                 e["thrust_vector"] = [0.0, 0.0, 0.05]
     tmeta = [dict(m, t0=m["real_t0"], t1=m["real_t1"]) for m in meta]
     env = tracer.TableEnv(_r.Random(case["seed"]), serendipity=case["seed"] % 2 == 0,
-                          **({"p_vis": 1.0, "p_slew": 1.0, "p_hit": 1.0} if case.get("mdet") else {}))
+                          **({"p_vis": 1.0, "p_slew": 1.0, "p_hit": 1.0} if case.get("mdet") or case.get("sure_obs") else {}))
     np.random.seed(case["seed"] % (2 ** 31))
     tmpdir = tempfile.mkdtemp(prefix="verif_c09_")
     dbfile = os.path.join(tmpdir, "out.sqlite3")
@@ -199,6 +199,12 @@ def make_cases(ctx: Ctx, rng):
                 # representable (16:00, 07:13) make differently computed Julian dates differ in the last bit
                 add(start=["2021-03-30T16:00:00", "2019-06-15T07:13:00"][si], step=step, out=out, span=span, split=split,
                     estimation=si == 0, span_cfg=max(1, span // 2))
+                # ... with the configured stop strictly INSIDE an output interval, so that the interval's non-output steps
+                # lie on both sides of it (their epoch rows exist up to the stop only), and observations certainly
+                # made on every step
+                if out > step:
+                    add(start=["2019-06-15T07:13:00", "2021-03-30T16:00:00"][si], step=step, out=out, span=span, split=split,
+                        estimation=True, span_cfg=1, sure_obs=True)
             if si == 0:
                 add(start=start, step=step, out=out, span=span, split=split, estimation=True, mdet=True,
                     events=[{"kind": "impulse", "t0": step, "planned": False}])
